@@ -780,6 +780,10 @@ func init() {
 			if fr.i.branchTerm(tCmp("bvsle", n, tConst(w, 0))) {
 				panic(targetPanic{msg: "invalid argument to Intn"})
 			}
+			if fr.i.side.concreteRand {
+				// harness asked for a fixed (arbitrary but legal) draw: n/2
+				return wrapTerm(t, tBV("bvlshr", n, tConst(w, 1)))
+			}
 			v := fr.i.path.fresh("rand", w)
 			fr.i.path.assume(tCmp("bvult", v, n))
 			return wrapTerm(t, v)
